@@ -5,6 +5,7 @@ import (
 	"fmt"
 	"sort"
 	"strings"
+	"time"
 
 	"github.com/cosmos/iavl"
 
@@ -374,7 +375,7 @@ func init() {
 		ID:    "C05",
 		Level: "fault_enumeration",
 		Cases: func(tier string) int { return tierN(tier, 240, 10000) },
-		Rule: "case = one history (12-40 ops; 1-8 keys, values up to 600 bytes; flush thresholds 150/300/800/default so that one logical operation is several physical batch writes; fast index on/off). Every SaveVersion, DeleteVersionsTo, LoadVersionForOverwriting, first-time fast-index build on open, and (1 case in 4) an import commit is executed once over the recording storage wrapper; for EVERY k in 0..m the image 'state before + first k physical writes' is materialised and judged: " +
+		Rule: "case = one history (12-40 ops; 1-8 keys, values up to 600 bytes; flush thresholds 150/300/800/default so that one logical operation is several physical batch writes; fast index on/off). Every SaveVersion, DeleteVersionsTo, LoadVersionForOverwriting, first-time fast-index build on open, (1 case in 4) an import commit and (1 case in 60) an import of >10000 nodes with its background batch writes delayed at the seam is executed once over the recording storage wrapper; for EVERY k in 0..m the image 'state before + first k physical writes' is materialised and judged: " +
 			"a fresh tree (fresh caches; same and opposite fast-index setting) must Load(); its available versions must be the set before or after the operation (for multi-version deletions a contiguous intermediate is accepted and counted as 'partial'); every available version must be readable with the expected contents and root hash on tree walk, Iterator, Get (fast path where enabled) and GetVersioned, and the loaded working tree must equal the latest version; then the interrupted operation is repeated from the reopened image (re-applying the uncommitted writes for a commit) and the result must equal the crash-free result exactly. " +
 			"evaluations = histories; the counters cuts / cuts_<op> / cut_outcome_<op>_<old|new|same|partial> / retries_ok count the cut points; distinct = hash(config, ops); non-trivial = >=1 operation with >=2 physical writes (i.e. interior cuts) was enumerated.",
 		Assumptions: []string{"crash model of the property: the process stops between two physical storage writes; each batch write is atomic and ordered (torn writes inside a batch and the backend's own durability are out of scope)", "M/R define the states before and after"},
@@ -486,6 +487,9 @@ func init() {
 			if c.Index%4 == 0 && !e.Dead && e.M.Latest > 0 && len(c.Res.Violations) == 0 {
 				multi += cutImport(c, e, pl)
 			}
+			if c.Index%60 == 30 && len(c.Res.Violations) == 0 {
+				multi += cutBigImport(c)
+			}
 			c.Obs("steps", e.Step)
 			c.Res.Nontrivial = multi >= 1
 		},
@@ -501,6 +505,54 @@ func init() {
 			return ""
 		},
 	})
+}
+
+// cutBigImport interrupts an import of more than 10000 nodes, which writes its nodes in background
+// batches: the non-sync background writes are delayed at the seam (as a slow disk would), so the
+// recorded order of physical writes is the order in which the importer really waits for them.
+func cutBigImport(c *fw.Ctx) int {
+	be, err := v1x.NewEnv(c, v1x.Config{Backend: "mem"})
+	if err != nil {
+		return 0
+	}
+	defer be.Close()
+	for i := 0; i < 5100; i++ {
+		be.Apply(v1x.Op{Kind: "set", K: []byte(fmt.Sprintf("big%05d", i)), V: []byte{byte(i)}}, false)
+	}
+	be.Apply(v1x.Op{Kind: "save"}, false)
+	if be.Dead {
+		return 0
+	}
+	v := be.M.Latest
+	it, err := be.T.GetImmutable(v)
+	if err != nil {
+		return 0
+	}
+	stream, err := exportStream(it, false)
+	if err != nil {
+		return 0
+	}
+	cfg := v1x.Config{Cache: 0, Fast: false, Backend: "mem"}
+	dst := seam.NewMemStore()
+	w := seam.NewWrap(dst)
+	w.AsyncWriteDelay = 40 * time.Millisecond
+	t := iavl.NewMutableTree(w, 0, true, iavl.NewNopLogger())
+	pre := dst.Clone()
+	w.StartRecording()
+	if err := importStream(t, v, stream, false); err != nil {
+		c.Violate(0, "cut|import|crash-free-error", "big import failed without any fault: %v", err)
+		return 0
+	}
+	writes := w.StopRecording()
+	newState := &vstate{vers: []int64{v}, snaps: map[int64]model.Snap{v: be.M.Vers[v]}, hashes: map[int64][]byte{v: be.R.Hashes[v]}}
+	oldState := &vstate{snaps: map[int64]model.Snap{}, hashes: map[int64][]byte{}}
+	cs := &cutSpec{kind: "import", op: v1x.Op{Kind: "import", N: v}, cfg: cfg, pre: pre, writes: writes, old: oldState, new: newState,
+		universe: [][]byte{[]byte("big00000"), []byte("big02550"), []byte("big05099")},
+		hist:     fmt.Sprintf("import of version %d (%d nodes, %d physical writes, background writes delayed 40ms)", v, len(stream), len(writes)), newVer: v}
+	cs.redo = func(t *iavl.MutableTree) error { return importStream(t, v, stream, false) }
+	enumerateCuts(c, cs)
+	c.Obs("big_import_cut_enumerations", 1)
+	return 1
 }
 
 // cutImport interrupts the import of the latest version into a fresh store.
